@@ -114,6 +114,60 @@ func solveQuery(q *Query, prelude string, opts *SolveOpts, id string) {
 		}
 	}
 	q.Result, q.Backend = best.r, best.name
+	if opts.WantModel {
+		candidateModel(q, prelude, opts, id)
+	}
+}
+
+// candidateModel: an undischarged query with quantified hypotheses rarely comes back `sat`.
+// Drop the quantified hypotheses (weaker hypotheses: any model is only a *candidate* input, to be
+// confirmed by replay on the real code) and ask for a model.
+func candidateModel(q *Query, prelude string, opts *SolveOpts, id string) {
+	var sb strings.Builder
+	for _, ln := range strings.Split(prelude, "\n") {
+		if strings.HasPrefix(ln, "(declare-fun at (Int Int) Int)") {
+			sb.WriteString("(define-fun at ((o Int) (i Int)) Int (+ o i))\n")
+			continue
+		}
+		if strings.HasPrefix(ln, "(assert ") && (strings.Contains(ln, "(forall ") || strings.Contains(ln, "(exists ")) {
+			continue
+		}
+		if strings.HasPrefix(ln, "(define-fun-rec ") {
+			continue
+		}
+		sb.WriteString(ln)
+		sb.WriteByte('\n')
+	}
+	for _, d := range q.Decls {
+		sb.WriteString(d)
+		sb.WriteByte('\n')
+	}
+	for _, p := range q.PC {
+		ps := p.String()
+		if strings.Contains(ps, "(forall ") || strings.Contains(ps, "(exists ") || strings.Contains(ps, "spec_") {
+			continue
+		}
+		sb.WriteString("(assert " + ps + ")\n")
+	}
+	gs := q.Goal.String()
+	if strings.Contains(gs, "spec_") {
+		return
+	}
+	sb.WriteString("(assert (not " + gs + "))\n(check-sat)\n(get-model)\n")
+	file := filepath.Join(opts.Dir, id+"_cand.smt2")
+	if err := os.WriteFile(file, []byte(sb.String()), 0o644); err != nil {
+		return
+	}
+	defer os.Remove(file)
+	for _, sv := range []Solver{Solvers[1], Solvers[0]} {
+		r, out := runSolver(context.Background(), sv, file, 8*time.Second)
+		if r == "sat" {
+			m := parseModel(out)
+			m["candidate"] = "model of the query without its quantified hypotheses (" + sv.Name + ")"
+			q.Model = m
+			return
+		}
+	}
 }
 
 func truncate(s string, n int) string {
@@ -218,6 +272,7 @@ func SolveAll(obls []*Obligation, prelude string, opts *SolveOpts) {
 	type job struct {
 		q  *Query
 		id string
+		o  *Obligation
 	}
 	// phase 0: batches through one z3 process each
 	var pending []*Query
@@ -270,7 +325,7 @@ func SolveAll(obls []*Obligation, prelude string, opts *SolveOpts) {
 			if q.Result != "" {
 				continue
 			}
-			jobs = append(jobs, job{q, fmt.Sprintf("o%d_q%d_%d", oi, qi, time.Now().UnixNano()%1000000000)})
+			jobs = append(jobs, job{q, fmt.Sprintf("o%d_q%d_%d", oi, qi, time.Now().UnixNano()%1000000000), o})
 		}
 	}
 	ch := make(chan job)
@@ -284,7 +339,15 @@ func SolveAll(obls []*Obligation, prelude string, opts *SolveOpts) {
 		go func() {
 			defer wg.Done()
 			for j := range ch {
+				if j.o != nil && j.o.failedFlag() {
+					// the obligation is already undischarged: do not spend solver time on its other paths
+					j.q.Result = "skipped"
+					continue
+				}
 				solveQuery(j.q, prelude, opts, j.id)
+				if j.q.Result != "unsat" && j.q.Result != "trivial" && j.o != nil {
+					j.o.setFailed()
+				}
 			}
 		}()
 	}
@@ -293,6 +356,17 @@ func SolveAll(obls []*Obligation, prelude string, opts *SolveOpts) {
 	}
 	close(ch)
 	wg.Wait()
+}
+
+func (o *Obligation) failedFlag() bool {
+	o.mu.Lock()
+	defer o.mu.Unlock()
+	return o.failed
+}
+func (o *Obligation) setFailed() {
+	o.mu.Lock()
+	o.failed = true
+	o.mu.Unlock()
 }
 
 func (o *Obligation) Discharged() bool {
@@ -310,6 +384,10 @@ func (o *Obligation) Status() string {
 		switch q.Result {
 		case "sat":
 			return "sat"
+		case "skipped":
+			if worst == "unsat" {
+				worst = "skipped"
+			}
 		case "unknown", "timeout", "error", "":
 			worst = q.Result
 			if worst == "" {
